@@ -212,13 +212,19 @@ func TestVerifC13Schema(t *testing.T) {
 		}
 		fmt.Fprintf(&b, "  (%s, %s_schema, %s_default)%s\n", c13LeanStr(k), names[i], names[i], sep)
 	}
-	b.WriteString("]\n\n/-- positions whose type has its own `Unmarshal(*confmap.Conf)`: (component, key path, Go type) -/\ndef customPositions : List (String × String × String) := [\n")
+	b.WriteString("]\n\n/-- positions whose type has its own `Unmarshal(*confmap.Conf)`: (component, key path, Go type) -/\ndef customPositions : List (String × List String × String) := [\n")
 	for i, c := range custom {
 		sep := ","
 		if i == len(custom)-1 {
 			sep = ""
 		}
-		fmt.Fprintf(&b, "  (%s, %s, %s)%s\n", c13LeanStr(c[0]), c13LeanStr(c[1]), c13LeanStr(c[2]), sep)
+		var segs []string
+		if c[1] != "" {
+			for _, seg := range strings.Split(c[1], "::") {
+				segs = append(segs, c13LeanStr(seg))
+			}
+		}
+		fmt.Fprintf(&b, "  (%s, [%s], %s)%s\n", c13LeanStr(c[0]), strings.Join(segs, ", "), c13LeanStr(c[2]), sep)
 	}
 	b.WriteString("]\n\nend OtelVerif.Gen.ConfigSchemas\n")
 	if err := os.WriteFile(p, []byte(b.String()), 0o644); err != nil {
